@@ -45,8 +45,14 @@ UNIT_LAWS: Dict[str, Tuple[str, str, str]] = {
     "double-inverse": ("(x**-1)**-1", "x", ""),
     "root-of-dimensionless-quotient": ("(((x * y) / y)**n).root(n)", "x", "n != 0"),
     "root-of-power-of-quotient-by-self": ("((x / x)**n).root(n)", "One", "n != 0"),
+    # a prefix applied from either side of a (possibly already prefixed) unit
+    "prefix-either-side": ("x * q", "q * x", ""),
+    "prefix-after-prefix": ("(q * x) * r", "(q * r) * x", ""),
+    "prefix-right-associates": ("(x * q) * r", "x * (q * r)", ""),
+    "prefix-undone": ("(x * q) * q**-1", "x", ""),
+    "identity-prefix-right": ("x * I", "x", ""),
 }
-DIM_LAWS = {k: v for k, v in UNIT_LAWS.items()}
+DIM_LAWS = {k: v for k, v in UNIT_LAWS.items() if "prefix" not in k}
 PREFIX_LAWS = {
     "commutative": ("p * q", "q * p", ""), "associative": ("(p * q) * r", "p * (q * r)", ""),
     "identity-right": ("p * I", "p", ""), "identity-left": ("I * p", "p", ""),
@@ -104,7 +110,10 @@ def run_law(kind: str, law: Tuple[str, str, str], bases: List[str], pbases: Tupl
                 return im.shadow_unit(pre, fs, dim)
 
             env.update(x=opnd("x", [0, 1], pbases[0]), y=opnd("y", [1, 2], pbases[1]),
-                       z=opnd("z", [0, 2], pbases[2]), One=One)
+                       z=opnd("z", [0, 2], pbases[2]), One=One, I=measured.IdentityPrefix)
+            if "q" in law[0] + law[1]:
+                qb = pbases[0] or 10
+                env.update(q=im.shadow_prefix(qb, SInt(z3.Int("q_e"))), r=im.shadow_prefix(qb, SInt(z3.Int("r_e"))))
         elif kind == "dimension":
             # the doubly nonlinear law ((x**n)*(y**n)).root(n)/y over 9 positions takes z3
             # minutes; it is asked over 2 symbolic positions (the code treats positions
@@ -133,6 +142,7 @@ def run_law(kind: str, law: Tuple[str, str, str], bases: List[str], pbases: Tupl
             pre += [z3.Int(f"{tag}_e{i}") != 0 for i in idx]
             if pb:
                 pre.append(z3.Int(f"{tag}_p") != 0)
+        pre += [z3.Int("q_e") != 0, z3.Int("r_e") != 0]
     elif kind == "prefix":
         pre += [z3.Int(f"{t}_e") != 0 for t in "pqr"]
     with symnum.Shims(), im.Tables("absent"):
@@ -148,7 +158,8 @@ def replay(kind: str, lawname: str, law: Tuple[str, str, str], bases: List[str],
             e = " * ".join(f"measured.Unit.named({bases[i]!r})**{g(f'{tag}_e{i}')}" for i in idx)
             return f"(measured.Prefix({pb}, {g(tag + '_p')}) * ({e}))" if pb else f"({e})"
         defs = (f"x = {opnd('x', [0, 1], pbases[0])}\ny = {opnd('y', [1, 2], pbases[1])}\n"
-                f"z = {opnd('z', [0, 2], pbases[2])}\nOne = measured.One\n")
+                f"z = {opnd('z', [0, 2], pbases[2])}\nOne = measured.One\nI = measured.IdentityPrefix\n"
+                f"q = measured.Prefix({pbases[0] or 10}, {g('q_e', 1)})\nr = measured.Prefix({pbases[0] or 10}, {g('r_e', 1)})\n")
     elif kind == "dimension":
         defs = "".join(f"{t} = measured.Dimension({tuple([0] + [g(f'{t}_g{j}') for j in range(1, N)])!r})\n"
                        for t in "xyz") + "One = measured.Number\n"
